@@ -736,7 +736,7 @@ def _max_contract(name, reverse, valign):
                 yield "invalidated", count_ev(s.trace, "_invalidate") == 1
             else:
                 yield "unhandled-without-positions-nothing-changed", both(V.opt_eq(result, True), neg(_has_positions(old)), now[1] == was[1], count_ev(s.trace, "_invalidate") == 0,
-                                                                           V.struct_eq(s.set_focus_pending, old.set_focus_pending) if not isinstance(old.set_focus_pending, V.SOpt) else True)
+                                                                           s.fields["set_focus_pending"] is old.fields["set_focus_pending"], s.fields["set_focus_valign_pending"] is old.fields["set_focus_valign_pending"])
             yield "scroll-state-untouched", same_scroll_state(s, old)
 
         def on_raise(old, s, a, exc):
@@ -775,3 +775,143 @@ def _empty_key_contract(name):
 
 lb_keypress_up_empty = _empty_key_contract("_keypress_up")
 lb_keypress_down_empty = _empty_key_contract("_keypress_down")
+
+
+# ------------------------------------------------------------------------------------------------ keypress (dispatch)
+
+
+def _page_stub(name):
+    @contract(LBX + f"ListBox.{name}", property=(), assumed=True, alias="C07-page",
+              notes="the 'page up' / 'page down' procedure (~190 lines: candidate table, snapping, retries through calculate_visible) as keypress sees it: "
+                    "may move the focus and rewrite offset_rows / inset_fraction / pref_col; returns None (handled) or True; NOTHING is assumed about the state "
+                    "it leaves (keypress claims nothing after these two commands beyond 'None or the key'); exercised by bounded/C07.py")
+    class k:
+        self_shape = LB
+        params = dict(size=Tup(Int, Int))
+        result = Opt(Bool)
+        raises = (_lbmod.ListBoxError, ValueError, IndexError, KeyError)
+        modifies = ("offset_rows", "inset_fraction", "pref_col")
+
+        def effects(old, s, a, result):
+            PROTOCOLS["ListWalker"].bump(cur(), s._body)
+
+    return k
+
+
+lb_page_up_stub = _page_stub("_keypress_page_up")
+lb_page_down_stub = _page_stub("_keypress_page_down")
+
+
+def _max_effects(old, s, a, result):
+    st = cur()
+    st.ghost["updown_before"] = walker_focus(s)
+    PROTOCOLS["ListWalker"].bump(st, s._body)
+
+
+def _max_ensures_callee(old, s, a, result):
+    was = cur().ghost["updown_before"]
+    now = walker_focus(s)
+    yield "handled-or-not", either(V.opt_isnone(result), V.opt_eq(result, True))
+    yield "still-a-focus", neg(mk_bool(now[0].isnone))
+    # (nothing is written on that path: in particular no pending change appears)
+    yield "unhandled-nothing-changed", implies(V.opt_eq(result, True), both(now[1] == was[1], V.opt_eq(now[0], was[0]), implies(V.opt_isnone(old.set_focus_pending), V.opt_isnone(s.set_focus_pending)),
+                                                                          implies(V.opt_isnone(old.set_focus_valign_pending), V.opt_isnone(s.set_focus_valign_pending))))
+    yield "scroll-state-untouched", same_scroll_state(s, old)
+
+
+for _c in (lb_keypress_max_left, lb_keypress_max_right):
+    type(_c).effects = staticmethod(_max_effects)
+    type(_c).ensures_callee = staticmethod(_max_ensures_callee)
+    type(_c).on_raise_callee = staticmethod(lambda old, s, a, exc: [("scroll-state-untouched", same_scroll_state(s, old))])
+
+NAV = ("cursor up", "cursor down", "cursor page up", "cursor page down", "cursor max left", "cursor max right")
+
+
+def _lb_missing(ip, st, obj, name):
+    if name == "_command_map":
+        return COMMAND_MAP
+    return NotImplemented
+
+
+def at_exit_versions(fn):
+    """Evaluate a spec query against the children as they are when the function returns (postconditions see them as at
+    entry by default)."""
+    st = cur()
+    saved = st.ghost.get("ver", {})
+    st.ghost["ver"] = dict(st.ghost.get("ver_post", saved))
+    try:
+        return fn()
+    finally:
+        st.ghost["ver"] = saved
+
+
+@contract(LBX + "ListBox.keypress", property=("C07", "C08"), replayable=False,
+          contract_overrides={LBX + "ListBox._keypress_page_up": lb_page_up_stub, LBX + "ListBox._keypress_page_down": lb_page_down_stub})
+class lb_keypress:
+    """A key goes to the focus widget first -- exactly once, only if it is selectable, at the size render draws it with
+    ((maxcol,)) -- and to no other widget.  Handled there: None, and the focus widget is shifted so that the row of its cursor
+    is a row of the box.  Otherwise what the focus widget gave back (the key itself if it was not asked) is looked up in the
+    command map: 'up' / 'down' / 'home' / 'end' (and the page commands) go to their procedures and come back unchanged exactly
+    when the procedure leaves them unhandled, with nothing changed; after a handled 'up' / 'down' the scroll state is sane and
+    a row of the focus widget is inside the box; every other key comes back unchanged, nothing changed.  An empty list gives
+    every key back."""
+
+    self_shape = LBK
+    params = dict(size=Tup(Int, Int), key=Opaque("Key"))
+    result = Opt(Opaque("Key"))
+    missing_field = staticmethod(_lb_missing)
+    # ListBoxError: 'up' / 'down' onto a widget whose height depends on focus (C07-KF1), or a page command; IndexError / KeyError:
+    # the walker refuses a position it reported; ValueError: page commands only (assumed stub)
+    raises = (_lbmod.ListBoxError, ValueError, IndexError, KeyError)
+    modifies = ("offset_rows", "inset_fraction", "pref_col", "set_focus_pending", "set_focus_valign_pending")
+
+    def requires(s, a):
+        # a focus change that is still pending (set_focus with no render since) is completed first by _set_focus_complete
+        # (contracts/C08_listbox.py); this contract starts after it
+        return both(no_change_pending(s), size_ok(a.size), lb_ok(s))
+
+    def ensures(old, s, a, result):
+        st = cur()
+        maxcol, maxrow = a.size
+        was = walker_focus(old, "entry")
+        now = walker_focus(s, "exit")
+        kp = [e for e in st.trace if e[0] == "call" and e[1].kind == "Widget" and e[2] in ("keypress", "mouse_event")]
+        unchanged = both(same_scroll_state(s, old), V.opt_eq(s.pref_col, old.pref_col), now[1] == was[1], V.opt_isnone(s.set_focus_pending), V.opt_isnone(s.set_focus_valign_pending))
+        if is_none(was[0]):
+            yield "empty-list-gives-the-key-back", both(len(kp) == 0, V.opt_eq(result, a.key), unchanged)
+            return
+        fw = val(was[0])
+        if W.call_quiet(st, fw, "selectable", {}):
+            yield "offered-to-the-focus-widget-only-once-at-the-rendered-size", both(len(kp) == 1, *[both(ev[2] == "keypress", eq(ev[1], fw), eq(ev[3]["key"], a.key), V.struct_eq(ev[3]["size"], (maxcol,))) for ev in kp])
+            key2 = kp[0][4] if kp else None
+        else:
+            yield "not-offered-to-an-unselectable-focus-widget", len(kp) == 0
+            key2 = a.key
+        if is_none(key2):
+            # handled by the focus widget
+            def cursor_clause():
+                shows, (cx, cy) = _cursor_of(fw, maxcol)
+                rows = rows_of(fw, maxcol, True)
+                off1, inset1 = offset_inset_of(s, rows)
+                return implies(shows, both(0 <= off1 - inset1 + cy, off1 - inset1 + cy < maxrow))
+
+            yield "handled-by-the-focus-widget", both(is_none(result), now[1] == was[1], V.opt_eq(s.pref_col, old.pref_col), V.opt_isnone(s.set_focus_pending), V.opt_isnone(s.set_focus_valign_pending))
+            yield "scroll-state-sane", lb_ok(s)
+            yield "cursor-row-inside-the-box", at_exit_versions(cursor_clause)
+            return
+        cmd = command_of(val(key2))
+        yield "the-key-or-none", either(V.opt_isnone(result), V.opt_eq(result, key2))
+        is_nav = either(*[cmd == c for c in NAV])
+        yield "a-key-bound-to-no-list-command-comes-back-nothing-changed", implies(neg(is_nav), both(V.opt_eq(result, key2), unchanged))
+        paging = either(cmd == "cursor page up", cmd == "cursor page down")
+        yield "an-unhandled-key-comes-back-nothing-changed", implies(both(neg(V.opt_isnone(result)), neg(paging)), unchanged)
+        updown = either(cmd == "cursor up", cmd == "cursor down")
+        no_rows = rows_of(val(now[0]), maxcol, True) == 0
+        yield "after-a-handled-up-or-down-scroll-state-sane-focus-row-inside-the-box", implies(both(updown, V.opt_isnone(result)),
+                                                                                              both(lb_ok(s), neg(mk_bool(now[0].isnone)), either(s.offset_rows < maxrow, same_scroll_state(s, old), no_rows)))
+        home_end = either(cmd == "cursor max left", cmd == "cursor max right")
+        yield "after-home-or-end-the-scroll-state-is-untouched", implies(home_end, same_scroll_state(s, old))
+
+    def on_raise(old, s, a, exc):
+        was = walker_focus(old, "entry")
+        yield "not-for-an-empty-list", neg(mk_bool(was[0].isnone))
